@@ -277,6 +277,8 @@ def run_annotate(system, requests):
 
 def target_known(kind, target):
     ff = force_field()
+    if kind == 'modification' and target == 'none':
+        return True             # the placeholder that asks for no modification is always accepted
     return target in (ff.blocks if kind == 'mutation' else ff.modifications)
 
 
@@ -596,6 +598,8 @@ def block_atomnames(resname):
 
 
 def modification_extra_atomnames(modname):
+    if modname == 'none':
+        return Counter()        # the placeholder: "no modification here" - the plain block, surplus atoms removed
     mod = force_field().modifications[modname]
     return Counter(mod.nodes[n]['atomname'] for n in mod.nodes if mod.nodes[n].get('PTM_atom'))
 
@@ -815,7 +819,7 @@ def random_repair_request(rng, desc, targets):
     if roll < 0.35:
         name = rng.choice(TERMINI)
         parts = (res[0] if rng.random() < 0.3 else None, name, None)
-        target = rng.choice(('N-ter', 'NH2-ter') if name == 'nter' else ('C-ter', 'COOH-ter'))
+        target = rng.choice(('N-ter', 'NH2-ter', 'none') if name == 'nter' else ('C-ter', 'COOH-ter', 'none'))
         return ('modification', parts, False, target)
     chain = res[0] if rng.random() < 0.5 else None
     name = res[2] if rng.random() < 0.6 else None
@@ -823,7 +827,7 @@ def random_repair_request(rng, desc, targets):
     parts = (chain, name, resid)
     if roll < 0.85:
         return ('mutation', parts, rng.random() < 0.3, rng.choice(targets))
-    return ('modification', parts, False, rng.choice(('N-ter', 'C-ter', 'NH2-ter', 'COOH-ter')))
+    return ('modification', parts, False, rng.choice(('N-ter', 'C-ter', 'NH2-ter', 'COOH-ter', 'none')))
 
 
 def stage_repair(col, rng, quick, deadline):
@@ -846,6 +850,13 @@ def stage_repair(col, rng, quick, deadline):
                    ('modification', ('B', 'cter', None), False, 'COOH-ter')]
         check_repair(col, fixed_rng, [pep], [[('mutation', (None, src, None), False, dst)] + termini], 'termini')
         check_repair(col, fixed_rng, [pep], [[('mutation', (None, None, 7), False, dst)]], 'surplus OXT')
+        # the placeholder 'none' (martinize2 -cter none): the plain block, so the surplus OXT has to go - alone, with the other
+        # terminus modified, and together with a mutation
+        check_repair(col, fixed_rng, [pep], [[('modification', ('B', 'cter', None), False, 'none')]], 'cter none')
+        check_repair(col, fixed_rng, [pep], [[('modification', ('B', 'cter', None), False, 'none'),
+                                              ('modification', ('B', 'nter', None), False, 'NH2-ter')]], 'cter none + nter')
+        check_repair(col, fixed_rng, [pep], [[('modification', (None, None, 7), False, 'none'),
+                                              ('mutation', (None, None, 7), False, dst)]], 'none + mutation')
         # a second pass over a system that was annotated and repaired before
         check_repair(col, fixed_rng, [pep], [termini, [('modification', ('B', src, 5), False, 'C-ter'),
                                                        ('mutation', ('B', 'GLY', None), False, dst)]], 'second pass')
